@@ -9,6 +9,7 @@ recorded and judged by spec/TraceSolver.tla.
 from __future__ import annotations
 
 import json
+import os
 import pickle
 import random
 import sys
@@ -560,6 +561,8 @@ def run_history(H, vars_, tid, cfg, step_hook=None):
             e["exc"], e["excClaripy"] = type(ex).__name__, True
         except Exception as ex:  # noqa: BLE001
             e["exc"] = type(ex).__name__
+            if os.environ.get("VERIF_TB"):
+                import traceback; traceback.print_exc()
         finally:
             if kw.get("track") and s in S:
                 snapshot_held(s, S[s])
@@ -671,6 +674,8 @@ def continue_history(PH, S, meta, vars_, cfg):
             e["exc"], e["excClaripy"] = type(ex).__name__, True
         except Exception as ex:  # noqa: BLE001
             e["exc"] = type(ex).__name__
+            if os.environ.get("VERIF_TB"):
+                import traceback; traceback.print_exc()
         events.append(e)
     return events
 
